@@ -316,6 +316,29 @@ func c19Oracle(in c19In) probe.Outcome {
 		if tr.TransformType != in.U8a || tr.TransformID != in.U32a2id() {
 			return probe.Fail("transform type/id differ from the arguments")
 		}
+		// the same builder call once more with another attribute value (e.g. AES-CBC offered with two key lengths):
+		// exactly one more element, holding the new value
+		{
+			var av2 *uint16
+			var vv2 []byte
+			v2 := in.U16b + 64
+			switch in.Attr {
+			case "tv":
+				av2 = &v2
+			case "tlv":
+				vv2 = append(cp(in.B1), 0x01)
+			}
+			if err := probe.Try(func() error { c.BuildTransform(in.U8a, in.U32a2id(), at, av2, vv2); return nil }); err != nil {
+				return probe.Fail("panic: %v", err)
+			}
+			if len(c) != 3 || c[0] != first || c[1] != tr {
+				return probe.Fail("a second BuildTransform call with the same type/id and another attribute value did not append exactly one element (len %d)", len(c))
+			}
+			if in.Attr == "tv" && c[2].AttributeValue != v2 || in.Attr == "tlv" && !bytes.Equal(c[2].VariableLengthAttributeValue, vv2) || tr.AttributeValue != map[bool]uint16{true: in.U16b, false: 0}[in.Attr == "tv"] {
+				return probe.Fail("second BuildTransform call: values of the two elements are not the ones given")
+			}
+			c = c[:2]
+		}
 		got := model.Transform{}
 		tmp := message.Proposal{}
 		switch in.U8a {
